@@ -12,7 +12,7 @@ All theorems quantify over EVERY history `ops` (any length, any topics/ids), EVE
 sub-step index `j` of the operation in flight (`crashAt {} ops k j` — also the points that are not transaction
 boundaries), for the service started empty with `PersistTopics` on (`{}`).
 -/
-import Kap.Proofs.C08
+import Kap.Proofs.C08Node
 namespace Kap.Props.C08
 open Kap.C08
 
@@ -260,7 +260,79 @@ theorem node_two_topic_split_phantom :
     nodeMisled { bothTopics with sco := true } [.point "a" 3 1, .point "a" 0 2, .point "a" 3 3] 1 5 "anon" "a" = true := by
   decide
 
+/-! ### The alert node: general theorems at operation boundaries
+Hypothesis `cfg.Distinct`: the anonymous topic `<tm>:<task>:<node>` is not also the node's `.topic()`. Quantified
+over every node configuration (with/without handlers, with/without `.topic`, `stateChangesOnly`, `noRecoveries`),
+every sequence of points and graceful task restarts. These are `_partial` with respect to the property's
+quantifier: crash points INSIDE a point (between its sub-steps) are excluded by the explicit hypothesis
+`(nplanAt cfg ops k).length ≤ j`; there the two counterexamples above apply. -/
+
+/-- **No reconciliation without a crash**: in an uninterrupted run (graceful task restarts included) every
+`restoreEvent` finds the anonymous and the named topic in agreement — `UpdateEvent` is never called. -/
+theorem node_no_reconcile_without_crash (cfg : Cfg) (hd : cfg.Distinct) (ops : List NOp) (id : String) :
+    (restoreEvent cfg (nrun cfg {} ops).svc id).2 = [] :=
+  (restoreEvent_inv cfg _ _ (nodeInv_nrun cfg hd _ {} (nodeInv_init cfg) ops).lv id).1
+
+/-- **On every topic of the node, memory, disk and the handlers' last word are the level of the spec**
+(`nodeLevel`: the level of the id's last point; with `noRecoveries` an OK point leaves the alert standing) —
+for every uninterrupted run. -/
+theorem node_topics_track_level (cfg : Cfg) (hd : cfg.Distinct) (ops : List NOp) (T : String)
+    (hT : T ∈ topicsOf cfg) (id : String) :
+    (nrun cfg {} ops).svc.mem.level T id = nodeLevel cfg.noRec ops id ∧
+    (nrun cfg {} ops).svc.disk.level T id = nodeLevel cfg.noRec ops id ∧
+    lastTold (nrun cfg {} ops).svc.told T id = nodeLevel cfg.noRec ops id :=
+  (nodeInv_nrun cfg hd _ {} (nodeInv_init cfg) ops).lv T hT id
+
+/-- **resume_level for the node (partial: crash after a completed point).** After the restart every topic of the
+node shows, for every id, the level the points processed so far left it at, the group resumes at exactly that
+level, and nothing is reconciled. -/
+theorem node_resume_level_partial (cfg : Cfg) (hd : cfg.Distinct) (ops : List NOp) (k j : Nat) (hk : k < ops.length)
+    (hj : (nplanAt cfg ops k).length ≤ j) (T : String) (hT : T ∈ topicsOf cfg) (id : String) :
+    ((ncrashAt cfg {} ops k j).restart cfg).svc.mem.level T id = nodeLevel cfg.noRec (ops.take (k + 1)) id ∧
+    restoreEvent cfg ((ncrashAt cfg {} ops k j).restart cfg).svc id = (nodeLevel cfg.noRec (ops.take (k + 1)) id, []) := by
+  rw [ncrashAt_done cfg ops k j hk hj]
+  have hinv := nodeInv_restart cfg _ _ (nodeInv_nrun cfg hd _ {} (nodeInv_init cfg) (ops.take (k + 1)))
+  refine ⟨(hinv.lv T hT id).1, ?_⟩
+  obtain ⟨h1, h2⟩ := restoreEvent_inv cfg _ _ hinv.lv id
+  have hne : topicsOf cfg ≠ [] := fun he => by rw [he] at hT; cases hT
+  exact Prod.ext (h2 hne) h1
+
+/-- **same_final_state and handlers_not_misled for the node (partial: crash after a completed point).** Restart,
+process the remaining points: every topic of the node ends, in memory and on disk, at the level of the
+uninterrupted run of ALL points, and that is the handlers' last word (told before the crash ++ told after). -/
+theorem node_same_final_state_partial (cfg : Cfg) (hd : cfg.Distinct) (ops : List NOp) (k j : Nat)
+    (hk : k < ops.length) (hj : (nplanAt cfg ops k).length ≤ j) (T : String) (hT : T ∈ topicsOf cfg) (id : String) :
+    (nrecover cfg {} ops k j).svc.mem.level T id = (nrun cfg {} ops).svc.mem.level T id ∧
+    (nrecover cfg {} ops k j).svc.disk.level T id = (nrun cfg {} ops).svc.disk.level T id ∧
+    lastTold (nrecover cfg {} ops k j).svc.told T id = (nrecover cfg {} ops k j).svc.mem.level T id := by
+  have hu := node_topics_track_level cfg hd ops T hT id
+  unfold nrecover
+  rw [ncrashAt_done cfg ops k j hk hj]
+  have hinv := nodeInv_nrun cfg hd _ _
+    (nodeInv_restart cfg _ _ (nodeInv_nrun cfg hd _ {} (nodeInv_init cfg) (ops.take (k + 1)))) (ops.drop (k + 1))
+  have hl := hinv.lv T hT id
+  have hlevel : nodeLevelFrom cfg.noRec (nodeLevelFrom cfg.noRec 0 (ops.take (k + 1)) id) (ops.drop (k + 1)) id =
+      nodeLevel cfg.noRec ops id := by
+    unfold nodeLevel
+    rw [← nodeLevelFrom_append, List.take_append_drop]
+  simp only [hlevel] at hl
+  rw [hu.1, hu.2.1, hl.1, hl.2.1, hl.2.2]
+  exact ⟨rfl, rfl, rfl⟩
+
 /-! ### Non-vacuity -/
+
+example : bothTopics.Distinct := by
+  intro T h; simp [bothTopics] at h ⊢; subst h; decide
+
+/-- a node history where `noRecoveries` suppresses a recovery, with a crash after a completed point -/
+example :
+    let cfg : Cfg := { bothTopics with noRec := true, sco := true }
+    let ops := [NOp.point "a" 3 1, .point "a" 0 2, .taskRestart, .point "a" 3 3, .point "b" 1 4]
+    (nplanAt cfg ops 1).length ≤ 1 ∧ "anon" ∈ topicsOf cfg ∧ nodeLevel cfg.noRec ops "a" = 3 ∧
+    nodeLevel cfg.noRec (ops.take 2) "a" = 3 ∧ nodeLevel false (ops.take 2) "a" = 0 ∧
+    (nrecover cfg {} ops 1 1).svc.mem.level "named" "b" = 1 := by
+  decide
+
 
 /-- a non-trivial history with a recovery, a dormant topic restored on reuse, a crash inside and after operations -/
 example :
